@@ -42,9 +42,17 @@ PAYLOADS = [
 ]
 
 
+def as_boolean(value):
+    """How OctoPrint's settings layer reads a boolean setting (Settings.get_boolean): a stored string counts by its spelling."""
+    if isinstance(value, str):
+        return value.lower() in ("true", "yes", "y", "1", "on")
+    return bool(value)
+
+
 class Stepper(object):
     def __init__(self, case):
         self.h = Harness(case.get("config", {}))
+        self.h.swallow_event_errors = True      # as OctoPrint's event bus does
         self.active = False
         self.ids = []
         self.clear_effective = bool(case.get("config", {}).get("clear_after_print"))
@@ -97,7 +105,7 @@ class Stepper(object):
             elif name == "FILE_SELECTED":
                 self.ids = []
             elif name == "SETTINGS_UPDATED":
-                self.clear_effective = bool(h.values.get("clearRegionsAfterPrintFinishes"))
+                self.clear_effective = as_boolean(h.values.get("clearRegionsAfterPrintFinishes"))
             self.sync_twin()
         elif k == "setting":
             h.values[op[1]] = op[2]          # takes effect at the next SETTINGS_UPDATED
@@ -247,9 +255,17 @@ def machine(tier, col):  # pylint: disable=unused-argument
             self.do(["script", typ, name])
             self.do(["g", "G1 X16 Y16 E3"])
 
-        @rule(val=st.booleans(), send=st.booleans())
-        def toggle_clear(self, val, send):
+        @rule(val=st.sampled_from([True, False, True, False, "false", "true", "no", "0", "on", 1, 0]), send=st.booleans(),
+              rows=st.sampled_from([None, None, None,
+                                    [{"gcode": "M117", "mode": "last", "description": None}],
+                                    [{"gcode": "G4", "mode": "exclude", "description": ""}, {"gcode": "M73", "mode": "merge", "description": None}],
+                                    []]))
+        def toggle_clear(self, val, send, rows):
+            """The setting as the settings layer may hold it (a boolean, or a string / number from a hand-edited config.yaml);
+            the same save may carry other changed settings (extended G-code rows, a description may be null)."""
             self.do(["setting", "clearRegionsAfterPrintFinishes", val])
+            if rows is not None:
+                self.do(["setting", "extendedExcludeGcodes", rows])
             if send:
                 self.do(["event", "SETTINGS_UPDATED"])
 
